@@ -5,6 +5,7 @@ strictly nearer") returns a nearest grid value, ties go right, grid values are f
 -/
 import Reamber.Model.Timing
 import Reamber.Spec.Timing
+import Reamber.Lemmas.Sort
 import Mathlib.Tactic.Linarith
 import Mathlib.Tactic.Ring
 import Mathlib.Algebra.Order.Field.Rat
@@ -14,77 +15,14 @@ namespace Reamber.Timing
 
 /-! ### insertion sort -/
 
-section Isort
-variable {α : Type} (le : α → α → Bool)
-
-theorem isort_cons (a : α) (t : List α) : isort le (a :: t) = insertBy le a (isort le t) := rfl
-
-theorem insertBy_perm (x : α) (l : List α) : (insertBy le x l).Perm (x :: l) := by
-  induction l with
-  | nil => simp [insertBy]
-  | cons y ys ih =>
-    unfold insertBy
-    split
-    · exact List.Perm.refl _
-    · exact (List.Perm.cons y ih).trans (List.Perm.swap x y ys)
-
-theorem isort_perm (l : List α) : (isort le l).Perm l := by
-  induction l with
-  | nil => exact List.Perm.refl _
-  | cons a t ih =>
-    rw [isort_cons]
-    exact (insertBy_perm le a _).trans (List.Perm.cons a ih)
-
-theorem mem_isort {z : α} {l : List α} : z ∈ isort le l ↔ z ∈ l := (isort_perm le l).mem_iff
-
-theorem isort_length (l : List α) : (isort le l).length = l.length := (isort_perm le l).length_eq
-
-theorem pairwise_insertBy (total : ∀ a b, le a b = true ∨ le b a = true)
-    (trans : ∀ a b c, le a b = true → le b c = true → le a c = true) (x : α) {l : List α}
-    (h : l.Pairwise (fun a b => le a b = true)) : (insertBy le x l).Pairwise (fun a b => le a b = true) := by
-  induction l with
-  | nil => simp [insertBy]
-  | cons y ys ih =>
-    have hy := List.pairwise_cons.mp h
-    unfold insertBy
-    split
-    · rename_i hxy
-      refine List.pairwise_cons.mpr ⟨?_, h⟩
-      intro z hz
-      rcases List.mem_cons.mp hz with rfl | hz
-      · exact hxy
-      · exact trans _ _ _ hxy (hy.1 z hz)
-    · rename_i hxy
-      refine List.pairwise_cons.mpr ⟨?_, ih hy.2⟩
-      intro z hz
-      rcases List.mem_cons.mp ((insertBy_perm le x ys).mem_iff.mp hz) with rfl | hz
-      · rcases total z y with h1 | h1
-        · exact absurd h1 hxy
-        · exact h1
-      · exact hy.1 z hz
-
-/-- the models' `isort` returns an ascending list, for every total transitive comparison -/
-theorem isort_pairwise (total : ∀ a b, le a b = true ∨ le b a = true)
+/-- the models' `isort` returns an ascending list, for every total transitive comparison (`Lemmas/Sort.lean`) -/
+theorem isort_pairwise {α : Type} (le : α → α → Bool) (total : ∀ a b, le a b = true ∨ le b a = true)
     (trans : ∀ a b c, le a b = true → le b c = true → le a c = true) (l : List α) :
-    (isort le l).Pairwise (fun a b => le a b = true) := by
-  induction l with
-  | nil => exact List.Pairwise.nil
-  | cons a t ih => rw [isort_cons]; exact pairwise_insertBy le total trans a ih
+    (isort le l).Pairwise (fun a b => le a b = true) := isort_sorted ⟨total, trans⟩ l
 
-/-- sorting an already ascending list changes nothing (Python's `list.sort` on sorted input; stability) -/
-theorem isort_eq_self {l : List α} (h : l.Pairwise (fun a b => le a b = true)) : isort le l = l := by
-  induction l with
-  | nil => rfl
-  | cons a t ih =>
-    have ha := List.pairwise_cons.mp h
-    rw [isort_cons, ih ha.2]
-    cases t with
-    | nil => rfl
-    | cons y ys =>
-      unfold insertBy
-      rw [if_pos (ha.1 y (by simp))]
-
-end Isort
+/-- sorting an already ascending list changes nothing (Python's `list.sort` on sorted input) -/
+theorem isort_eq_self {α : Type} (le : α → α → Bool) {l : List α} (h : l.Pairwise (fun a b => le a b = true)) :
+    isort le l = l := isort_of_sorted h
 
 /-! ### the grid -/
 
@@ -124,12 +62,12 @@ theorem grid_asc (N : Nat) : (grid N).Pairwise (fun a b => a ≤ b) := by
   · intro a ha b hb
     simp only [List.mem_singleton] at hb
     rw [hb]
-    exact le_of_lt (gridPairs_bounds ((mem_isort _).mp ha)).2
+    exact le_of_lt (gridPairs_bounds (mem_isort.mp ha)).2
 
 theorem grid_bounds {N : Nat} {z : Rat} (h : z ∈ grid N) : 0 ≤ z ∧ z ≤ 1 := by
   unfold grid at h
   rcases List.mem_append.mp h with h | h
-  · have := gridPairs_bounds ((mem_isort _).mp h)
+  · have := gridPairs_bounds (mem_isort.mp h)
     exact ⟨this.1, le_of_lt this.2⟩
   · simp only [List.mem_singleton] at h
     rw [h]; exact ⟨by decide, le_refl _⟩
@@ -138,7 +76,7 @@ theorem one_mem_grid (N : Nat) : (1 : Rat) ∈ grid N := by simp [grid]
 
 theorem zero_mem_grid {N : Nat} (h : 0 < N) : (0 : Rat) ∈ grid N := by
   unfold grid
-  exact List.mem_append_left _ ((mem_isort _).mpr (zero_mem_gridPairs h))
+  exact List.mem_append_left _ (mem_isort.mpr (zero_mem_gridPairs h))
 
 /-- the last value of every grid is 1 -/
 theorem grid_getLast (N : Nat) : (grid N).getLast? = some 1 := by simp [grid]
